@@ -425,6 +425,21 @@ class ResultQuantifier(CanBehaveLikeAVariable[T], ABC):
     def _all_variable_instances_(self) -> List[Variable]:
         return self._child_._all_variable_instances_
 
+    def _reset_after_evaluation_(self, completed: bool) -> None:
+        """
+        Leave the expression tree in the state a fresh evaluation expects.
+
+        :param completed: Whether the evaluation ran to the end; if not (the result iterator was closed early or an
+         exception was raised), the result caches may claim coverage of bindings whose results were never produced, so
+         they are dropped as well.
+        """
+        self._reset_cache_()
+        if not completed:
+            for node in self._all_nodes_:
+                for cache in vars(node).values():
+                    if isinstance(cache, IndexedCache):
+                        cache.clear()
+
     def _process_result_(self, result: Dict[int, HashedValue]) -> TypingUnion[T, UnificationDict]:
         if isinstance(self._child_, Entity):
             return result[self._child_.selected_variable._id_].value
@@ -472,10 +487,14 @@ class The(ResultQuantifier[T]):
     """
 
     def evaluate(self) -> TypingUnion[Iterable[T], T, UnificationDict]:
-        result = self._evaluate_()
-        result = self._process_result_(result)
-        self._reset_cache_()
-        return result
+        completed = False
+        try:
+            result = self._evaluate_()
+            result = self._process_result_(result)
+            completed = True
+            return result
+        finally:
+            self._reset_after_evaluation_(completed)
 
     def _evaluate__(self, sources: Optional[Dict[int, HashedValue]] = None, yield_when_false: bool = False) -> Iterable[Dict[int, HashedValue]]:
         v = self._evaluate_(sources, yield_when_false=yield_when_false)
@@ -517,11 +536,15 @@ class An(ResultQuantifier[T]):
         self._node_.wrap_subtree = True
 
     def evaluate(self) -> Iterable[TypingUnion[T, Dict[TypingUnion[T, SymbolicExpression[T]], T]]]:
-        with symbolic_mode(mode=None):
-            results = self._evaluate__()
-            assert not in_symbolic_mode()
-            yield from map(self._process_result_, results)
-        self._reset_cache_()
+        completed = False
+        try:
+            with symbolic_mode(mode=None):
+                results = self._evaluate__()
+                assert not in_symbolic_mode()
+                yield from map(self._process_result_, results)
+            completed = True
+        finally:
+            self._reset_after_evaluation_(completed)
 
     def _evaluate__(self, sources: Optional[Dict[int, HashedValue]] = None, yield_when_false: bool = False) -> Iterable[T]:
         sources = sources or {}
